@@ -24,6 +24,9 @@ def obligations(tier):
            '15^3 = 3375 histories', [F['del'], F['clean'], 'replicat.repository:Repository.snapshot', 'replicat.repository:Repository.restore'],
            module=Hh, func='h3', timeout=900, shards=12),
         Ob('H3u', 'E', 'same on an unencrypted repository', 'every 3rd of 3375 histories', [F['del'], F['clean']], module=Hh, func='h3u', timeout=900, shards=4),
+        Ob('E.listfault', 'E', 'Local repository with snapshots of A/B/C: clean or delete while the j-th directory scan of the command fails (EIO/EACCES): every snapshot still in the store keeps all its chunk objects (the command may raise)',
+           '3 callers x clean/delete x 32 fault positions x 2 error types x 2 data combinations = 768', [F['del'], F['clean'], 'replicat.backends.local:Local.list_files', 'replicat.utils.fs:iterative_scandir'],
+           module=Hh, func='e_gc_list_fault', timeout=900, shards=4),
         Ob('H4', 'E', 'histories of 4 commands, latencies [0,2,1,0,3], concurrency 3, fresh or long-lived client objects', '15^4 = 50625 histories',
            [F['del'], F['clean']], module=Hh, func='h4', timeout=3600, shards=32, tiers=('thorough',)),
     ]
